@@ -109,3 +109,29 @@ def search(ctx, fn, alphabet, name, d0, d1, opts=None, procs=None, chunk=16, max
     if not stats["closed"] and complete:
         ctx.note(f"{name}: search stopped at depth bound {d1} before closure (frontier {len(frontier)})")
     return stats
+
+
+def plain_attrs(obj):
+    """Every plain-valued instance attribute of a library object, sorted: for canonical states.  A hand-picked subset of fields can merge
+    states that differ in a field the author of the check did not think of (a hidden flag); taking all of them cannot."""
+    def plain(v):
+        if isinstance(v, (bool, int, float, str, bytes, type(None))):
+            return repr(v)
+        if isinstance(v, (list, tuple)) and all(isinstance(x, (bool, int, float, str, bytes, type(None))) for x in v):
+            return repr(list(v))
+        g = getattr(v, "get", None)
+        if callable(g) and type(v).__module__.startswith("secsgem.secs"):
+            try:
+                return repr(g())
+            except Exception:  # noqa: BLE001
+                return "<unreadable>"
+        return None
+
+    out = []
+    for n, v in sorted(vars(obj).items()):
+        p = plain(v)
+        if p is None and isinstance(v, (list, tuple)):
+            p = repr([plain(x) for x in v])
+        if p is not None:
+            out.append((n, p))
+    return out
